@@ -398,6 +398,9 @@ pub struct CodecParams {
     pub zstd_level: i32,
     pub zstd_checksum: bool,
     pub zstd_contentsize: bool,
+    /// Some(w): streaming encoder with an explicit window of 2^w bytes and no pledged size, so that the frame header
+    /// carries a window descriptor of that size (what `zstd --long=w` / the ultra levels produce)
+    pub zstd_window_log: Option<u32>,
 }
 
 impl CodecParams {
@@ -413,6 +416,7 @@ impl CodecParams {
             zstd_level: 3,
             zstd_checksum: false,
             zstd_contentsize: true,
+            zstd_window_log: None,
         }
     }
 
@@ -437,6 +441,7 @@ impl CodecParams {
             zstd_level: *rng.pick(&[1, 3, 9, 19]),
             zstd_checksum: rng.chance(1, 2),
             zstd_contentsize: rng.chance(1, 2),
+            zstd_window_log: if rng.chance(1, 10) { Some(*rng.pick(&[23u32, 24, 25, 27])) } else { None },
         }
     }
 }
@@ -478,7 +483,9 @@ pub fn codec_compress(codec: u8, data: &[u8], p: &CodecParams) -> Result<Vec<u8>
                 .map_err(|e| e.to_string())?;
             enc.include_checksum(p.zstd_checksum).map_err(|e| e.to_string())?;
             enc.include_contentsize(p.zstd_contentsize).map_err(|e| e.to_string())?;
-            if p.zstd_contentsize {
+            if let Some(w) = p.zstd_window_log {
+                enc.set_parameter(zstd::stream::raw::CParameter::WindowLog(w)).map_err(|e| e.to_string())?;
+            } else if p.zstd_contentsize {
                 enc.set_pledged_src_size(Some(data.len() as u64)).map_err(|e| e.to_string())?;
             }
             enc.write_all(data).map_err(|e| e.to_string())?;
